@@ -481,7 +481,10 @@ impl World for C09World {
         heap::set_hash_seed(self.hash_seed); // this (fresh) thread's hash keys are part of the world
         let _ = heap::reset(self.hash_seed); // library calls run on the canonical simulated heap, never on the system allocator
         st.inc("worlds");
+        st.add("observed_fast_path_the_simulator_cannot_switch_off", 0);
+        st.add("observed_pruning_the_simulator_cannot_switch_off", 0);
         st.inc(&format!("float_{}", if self.f32_ { "f32" } else { "f64" }));
+        st.inc(&format!("family_{}", self.tag.split(';').next().unwrap_or("").split(' ').next().unwrap_or("rect")));
         for op in &self.ops {
             if let Some(v) = self.check_op(*op, st, &mut log) {
                 violation = Some(v);
